@@ -423,7 +423,7 @@ class C13(Check):
                                       where("hals_nnls", opts, l1, l2, slab) + f"{type(e).__name__}: {e}")
                         continue
                     ctx.count("hals_loop_ended_by:" + watch.why)
-                    ctx.count("hals_sweeps<=" + ("10" if watch.n <= 10 else "100" if watch.n <= 100 else "1000" if watch.n <= 1000 else "20000"))
+                    ctx.count("hals_sweeps<=" + ("10" if watch.n <= 10 else "100" if watch.n <= 100 else "1000" if watch.n <= 1000 else "5000" if watch.n <= 5000 else "20000"))
                     aspect, text = report("hals_nnls", opts, slab, sv, X)
                     if aspect is not None:
                         sig = f"hals_nnls/{aspect}/{start_class(sv)}" + ("" if aspect in ("non-finite", "negative", "shape") else "/" + pc)
